@@ -337,3 +337,211 @@ class ClassIndex(object):
             if m is not None:
                 return r, c, m
         return None
+
+
+# ---------------------------------------------------------------------------
+# "extract method" undone: private helpers of a class inlined at their call sites
+# ---------------------------------------------------------------------------
+
+def inline_helpers(cls, fn, keep=(), depth=3):
+    """A deep copy of method `fn` in which statement-level calls `self.<h>(...)` to methods of the same class are replaced by the body
+    of <h> - for helpers whose name is not in `keep`, that take plain positional / keyword arguments and return at most once, as their
+    last statement.  Three call shapes are handled: `self.h(..)`, `x = self.h(..)`, `return self.h(..)`.  Parameters bound to a
+    differently spelled argument are assigned first (`param = arg`).  Rules written against the un-refactored shape of a method
+    then see through a maintainer's helper extraction.  Statements are renumbered in textual order (`lineno`), the line in the
+    file is kept in `src_lineno`; parent links are set."""
+    import copy
+    meths = methods(cls)
+    keep = set(keep) | set([fn.name])
+
+    def simple(h):
+        rets = [r for r in ast.walk(h) if isinstance(r, ast.Return)]
+        if any(isinstance(x, (ast.Yield, ast.YieldFrom, ast.Global, ast.Nonlocal)) for x in ast.walk(h)):
+            return False
+        body = docstring_stripped(h.body)
+        if not body:
+            return False
+        inner_defs = [x for x in ast.walk(h) if isinstance(x, (ast.FunctionDef, ast.Lambda)) and x is not h]
+        for r in rets:
+            if any(r in list(ast.walk(d)) for d in inner_defs):
+                continue
+            if r is not body[-1]:
+                return False
+        if h.args.vararg or h.args.kwarg or h.args.kwonlyargs:
+            return False
+        return True
+
+    def expand(call, shape, target):
+        nm = call_name(call) or ''
+        if not nm.startswith('self.') or nm.count('.') != 1:
+            return None
+        h = meths.get(nm[5:])
+        if h is None or h.name in keep or not simple(h) or any(isinstance(a, ast.Starred) for a in call.args) or any(k.arg is None for k in call.keywords):
+            return None
+        params = [a.arg for a in h.args.args][1:]
+        if len(call.args) > len(params):
+            return None
+        bind = dict(zip(params, call.args))
+        for k in call.keywords:
+            if k.arg not in params or k.arg in bind:
+                return None
+            bind[k.arg] = k.value
+        ndef = len(h.args.defaults)
+        for i, p in enumerate(params):
+            if p not in bind:
+                j = i - (len(params) - ndef)
+                if j < 0:
+                    return None
+                bind[p] = h.args.defaults[j]
+        out = []
+        for p in params:
+            a = bind[p]
+            if isinstance(a, ast.Name) and a.id == p:
+                continue
+            out.append(ast.Assign(targets=[ast.Name(id=p, ctx=ast.Store())], value=copy.deepcopy(a), lineno=call.lineno, col_offset=0))
+        body = [copy.deepcopy(s) for s in docstring_stripped(h.body)]
+        last = body[-1] if body else None
+        if isinstance(last, ast.Return):
+            body.pop()
+            if last.value is not None:
+                if shape == 'expr':
+                    body.append(ast.Expr(value=last.value, lineno=last.lineno, col_offset=0))
+                elif shape == 'assign':
+                    body.append(ast.Assign(targets=[copy.deepcopy(t) for t in target], value=last.value, lineno=last.lineno, col_offset=0))
+                else:
+                    body.append(ast.Return(value=last.value, lineno=last.lineno, col_offset=0))
+            elif shape == 'assign':
+                body.append(ast.Assign(targets=[copy.deepcopy(t) for t in target], value=ast.Constant(value=None), lineno=last.lineno, col_offset=0))
+            elif shape == 'return':
+                body.append(ast.Return(value=None, lineno=last.lineno, col_offset=0))
+        elif shape == 'assign':
+            body.append(ast.Assign(targets=[copy.deepcopy(t) for t in target], value=ast.Constant(value=None), lineno=call.lineno, col_offset=0))
+        elif shape == 'return':
+            body.append(ast.Return(value=None, lineno=call.lineno, col_offset=0))
+        for s in out + body:
+            for x in ast.walk(s):
+                x.inlined_from = h.name
+        return out + body
+
+    tmp_counter = [0]
+
+    def hoist_test(s, level):
+        """`if self.h(..):` / `if not self.h(..)` / `if self.h(..) <op> e` / `if self.h(..) and ...`: the call is the first thing evaluated, so it can be
+        computed into a temporary in front of the statement without changing behaviour"""
+        if level <= 0 or not isinstance(s, ast.If):
+            return None
+        t = s.test
+        holder, attr = s, 'test'
+        while True:
+            if isinstance(t, ast.UnaryOp) and isinstance(t.op, ast.Not):
+                holder, attr, t = t, 'operand', t.operand
+            elif isinstance(t, ast.Compare):
+                holder, attr, t = t, 'left', t.left
+            elif isinstance(t, ast.BoolOp):
+                holder, attr, t = t, 0, t.values[0]
+            else:
+                break
+        if not isinstance(t, ast.Call):
+            return None
+        tmp_counter[0] += 1
+        nm = '_inl%d' % tmp_counter[0]
+        rep = expand(t, 'assign', [ast.Name(id=nm, ctx=ast.Store())])
+        if rep is None:
+            return None
+        ref = ast.Name(id=nm, ctx=ast.Load(), lineno=s.lineno, col_offset=0)
+        if attr == 0:
+            holder.values[0] = ref
+        else:
+            setattr(holder, attr, ref)
+        return rep
+
+    def walk(stmts, level):
+        res = []
+        for s in stmts:
+            rep = None
+            pre = hoist_test(s, level)
+            if pre is not None:
+                res.extend(walk(pre, level - 1))
+            if level > 0:
+                if isinstance(s, ast.Expr) and isinstance(s.value, ast.Call):
+                    rep = expand(s.value, 'expr', None)
+                elif isinstance(s, ast.Assign) and isinstance(s.value, ast.Call):
+                    rep = expand(s.value, 'assign', s.targets)
+                elif isinstance(s, ast.Return) and isinstance(s.value, ast.Call):
+                    rep = expand(s.value, 'return', None)
+            if rep is not None:
+                res.extend(walk(rep, level - 1))
+                continue
+            for field in ('body', 'orelse', 'finalbody'):
+                if hasattr(s, field) and isinstance(getattr(s, field), list) and not isinstance(s, (ast.FunctionDef, ast.ClassDef)):
+                    setattr(s, field, walk(getattr(s, field), level))
+            if isinstance(s, ast.Try):
+                for hd in s.handlers:
+                    hd.body = walk(hd.body, level)
+            res.append(s)
+        return res
+    new = copy.deepcopy(fn)
+    for x in ast.walk(new):
+        if hasattr(x, 'parent'):
+            try:
+                del x.parent
+            except AttributeError:
+                pass
+    new.body = walk(new.body, depth)
+    # renumber in textual order
+    counter = [getattr(fn, 'lineno', 1)]
+
+    def number(stmts):
+        for s in stmts:
+            counter[0] += 1
+            src = getattr(s, 'lineno', None)
+            for x in ast.walk(s):
+                if hasattr(x, 'lineno') and not hasattr(x, 'src_lineno'):
+                    x.src_lineno = x.lineno
+            s.lineno = counter[0]
+            for x in ast.walk(s):
+                if x is not s and hasattr(x, 'lineno') and not isinstance(x, ast.stmt):
+                    x.lineno = counter[0]
+            for field in ('body', 'orelse', 'finalbody'):
+                if hasattr(s, field) and isinstance(getattr(s, field), list) and not isinstance(s, (ast.FunctionDef, ast.ClassDef)):
+                    number(getattr(s, field))
+            if isinstance(s, ast.Try):
+                for hd in s.handlers:
+                    number(hd.body)
+    number(new.body)
+    ast.fix_missing_locations(new)
+    set_parents(new)
+    return new
+
+
+def inlined_class(cls, keep=()):
+    """a shallow copy of the class whose methods have their private-helper calls inlined; helpers all of whose call sites were inlined are dropped"""
+    import copy
+    meths = methods(cls)
+    used_elsewhere = set()
+    newc = copy.copy(cls)
+    body = []
+    inl = set()
+    for s in cls.body:
+        if isinstance(s, ast.FunctionDef):
+            n = inline_helpers(cls, s, keep=keep)
+            for x in ast.walk(n):
+                if getattr(x, 'inlined_from', None):
+                    inl.add(x.inlined_from)
+            body.append(n)
+        else:
+            body.append(s)
+    # a helper is dropped when no call to it remains anywhere in the class
+    remaining = set()
+    for s in body:
+        if isinstance(s, ast.FunctionDef):
+            for c in calls(s):
+                nm = call_name(c) or ''
+                if nm.startswith('self.') and nm.count('.') == 1:
+                    remaining.add(nm[5:])
+            for a in ast.walk(s):
+                if isinstance(a, ast.Attribute) and isinstance(a.value, ast.Name) and a.value.id == 'self' and isinstance(a.ctx, ast.Load) and a.attr in inl \
+                        and not isinstance(getattr(a, 'parent', None), ast.Call):
+                    remaining.add(a.attr)       # passed around as a bound method
+    newc.body = [s for s in body if not (isinstance(s, ast.FunctionDef) and s.name in inl and s.name not in remaining and s.name.startswith('_'))]
+    return newc
